@@ -208,8 +208,22 @@ impl quote::ToTokens for ParamsGenerator<'_> {
         }
 
         for param in self.params {
-            if !matches!(param, syn::GenericParam::Lifetime(_)) {
-                punctuator.push(param);
+            match param {
+                syn::GenericParam::Lifetime(_) => {}
+                // Defaults (`T = i32`, `const N: usize = 3`) are not allowed in an impl header
+                syn::GenericParam::Type(type_param) if self.impl_t.is_some() => {
+                    let mut type_param = type_param.clone();
+                    type_param.eq_token = None;
+                    type_param.default = None;
+                    punctuator.push(type_param);
+                }
+                syn::GenericParam::Const(const_param) if self.impl_t.is_some() => {
+                    let mut const_param = const_param.clone();
+                    const_param.eq_token = None;
+                    const_param.default = None;
+                    punctuator.push(const_param);
+                }
+                param => punctuator.push(param),
             }
         }
     }
